@@ -476,9 +476,12 @@ def native_estimate(scratch):
 
 
 def native_protocol(scratch):
-    """A publication whose rename/link fails with EXDEV must fail without leaving anything else in the cache directory."""
+    """Publication happens through chmod + rename/link only: the file is read-only before it becomes visible, and a
+    rename/link that fails with EXDEV does not make the library write inside the cache directory by other means."""
     nat, sc = _native(scratch)
     outs = []
+    for code in (3, 4):
+        outs.append(sc.o_readonly_before_visible(plain_scen(code, present=False), nat, ""))
     for code, kind in ((3, "rename"), (4, "link")):
         scen = plain_scen(code, present=False, fault=dict(kind=kind, occurrence=1, errno=18))
         bad = []
@@ -486,11 +489,36 @@ def native_protocol(scratch):
             r = sc.run_scenario(scen, nat, profile, strace=[], with_fault=True)
             if r is None:
                 continue
-            new = [p_ for p_ in r["after"] if p_.startswith("w/") and p_ not in r["before"] and "/.kismet_temp" not in p_]
-            created = [ln for ln in (r["strace"] or []) if "O_CREAT" in ln and "/w/" in ln]
-            if new or created or r["out"]["result"] == "ok":
-                bad.append((profile, "after a failed %s: result %s, new entries %r, files created in place: %d" % (kind, r["out"]["result"], new, len(created))))
+            new = [p_ for p_ in r["after"] if p_.startswith("w/") and p_ not in r["before"] and "/.kismet_temp" not in p_ and p_ != "w/ka"]
+            created = [ln for ln in (r["strace"] or []) if "O_CREAT" in ln and "/w/" in ln and "/.kismet_temp/" not in ln and "O_DIRECTORY" not in ln]
+            if new or created:
+                bad.append((profile, "after a failed %s: new entries %r, files created in place: %s" % (kind, new, [c[:90] for c in created[:2]])))
         outs.append(sc.verdict(bad, scen, "publication outside the rename/link protocol", "failed publication leaves the directory alone natively"))
+    return _first_reproduced(outs)
+
+
+def native_fresh(scratch):
+    nat, sc = _native(scratch)
+    return _first_reproduced([sc.o_fresh_not_accessed(plain_scen(3, present=False), nat, ""), sc.o_fresh_not_accessed(plain_scen(4, present=False), nat, "")])
+
+
+def native_touch(scratch):
+    from .smt_stack import mk_scen
+    nat, sc = _native(scratch)
+    return _first_reproduced([sc.o_readonly_root_mutated(mk_scen(1, w=None, r=50), nat, ""), sc.o_readonly_root_mutated(mk_scen(0, w=None, r=50), nat, "")])
+
+
+def native_retry(scratch):
+    """A peer creates the missing cache directory right before our own mkdir: the write must still succeed."""
+    nat, sc = _native(scratch)
+    outs = []
+    for code, pub in ((3, "rename"), (4, "link")):
+        scen = plain_scen(code, present=False)
+        scen["dirs"] = [d for d in scen["dirs"] if d["path"] != "w"]
+        scen["calls"] = [dict(n=1, kind="utimes", dir=20, slot=0), dict(n=2, kind="stat", dir=20, slot=0), dict(n=3, kind="chmod", dir=20, slot=0),
+                         dict(n=4, kind=pub, dir=0, slot=0), dict(n=5, kind="mkdir", dir=0, slot=255)]
+        scen["env"] = [dict(before_call=5, dir=0, slot=255, action="mkdir", path="w")]
+        outs.append(sc.o_env_no_error(scen, nat, ""))
     return _first_reproduced(outs)
 
 
@@ -506,4 +534,5 @@ def native_probe(scratch):
     return _first_reproduced(outs)
 
 
-NATIVE = {"choice": native_choice, "estimate": native_estimate, "update": native_protocol, "insert": native_protocol, "probe": native_probe}
+NATIVE = {"choice": native_choice, "estimate": native_estimate, "bookkeeping": native_estimate, "update": native_protocol, "insert": native_protocol,
+          "readonly": native_protocol, "probe": native_probe, "fresh": native_fresh, "touch": native_touch, "retry": native_retry}
